@@ -383,6 +383,60 @@ def xlArith (op : AOp) : Value ν → Value ν → Option (Value ν)
   | .str s, .str t => if op = .add then some (.str (s ++ t)) else none
   | _, _ => none
 
+/-- expr-lang's optimizer folds integer-literal arithmetic (`optimizer/fold.go`) … -/
+def constInt : Expr → Option ν
+  | .lit l => if l.q = 0 then some (ofNat l.whole) else none
+  | .paren e => constInt e
+  | .neg e => (constInt e).map fun x => sub (ofNat 0) x
+  | .arith .add l r => match constInt l, constInt r with | some x, some y => some (add x y) | _, _ => none
+  | .arith .sub l r => match constInt l, constInt r with | some x, some y => some (sub x y) | _, _ => none
+  | .arith .mul l r => match constInt l, constInt r with | some x, some y => some (mul x y) | _, _ => none
+  | _ => none
+
+def constStr : Expr → Option Str
+  | .str s => some s
+  | .paren e => constStr e
+  | _ => none
+
+def foldStrEq (l r : Expr) : Option Bool :=
+  match constStr l, constStr r with
+  | some s, some t => some (decide (s = t))
+  | _, _ => none
+
+def foldIntEq (l r : Expr) : Option Bool :=
+  match constInt (ν := ν) l, constInt (ν := ν) r with
+  | some x, some y => some (eq x y)
+  | _, _ => none
+
+/-- `true && x` → x, `x && true` → x, `x && false` / `false && x` → false -/
+def andTable : Option Bool → Option Bool → Option Bool
+  | some true, b => b
+  | a, some true => a
+  | some false, _ => some false
+  | _, some false => some false
+  | none, none => none
+
+def orTable : Option Bool → Option Bool → Option Bool
+  | some false, b => b
+  | a, some false => a
+  | some true, _ => some true
+  | _, some true => some true
+  | none, none => none
+
+/-- … and conditions that are constant at compile time: `==` of two integer or two string
+literals, `!` of a constant, and `&&`/`||` with a constant operand — *dropping the other
+operand*, so `X && false` is `false` even when `X` would raise at run time. -/
+def foldBool : Expr → Option Bool
+  | .paren e => foldBool e
+  | .cmp .eq l r =>
+    match foldStrEq l r with
+    | some b => some b
+    | none => foldIntEq (ν := ν) l r
+  | .not e => (foldBool e).map (!·)
+  | .and l r => andTable (foldBool l) (foldBool r)
+  | .or l r => orTable (foldBool l) (foldBool r)
+  | _ => none
+
 /-- strict evaluation (`none` = compile or run-time error).  `sel` = SELECT position, where the SQL
 keywords AND/OR/NOT, `=` and CASE reach expr-lang unlowered and do not compile. -/
 def xl (env : Env ν) (row : Row ν) (sel : Bool) : Expr → Option (Value ν)
@@ -405,7 +459,10 @@ def xl (env : Env ν) (row : Row ν) (sel : Bool) : Expr → Option (Value ν)
       | _, _ => none
   | .and l r =>
     if sel then none
-    else match xl env row sel l with
+    else match foldBool (ν := ν) (.and l r) with
+    | some b => some (.bool b)
+    | none =>
+    match xl env row sel l with
       | some (.bool false) => some (.bool false)
       | some (.bool true) =>
         match xl env row sel r with
@@ -414,7 +471,10 @@ def xl (env : Env ν) (row : Row ν) (sel : Bool) : Expr → Option (Value ν)
       | _ => none
   | .or l r =>
     if sel then none
-    else match xl env row sel l with
+    else match foldBool (ν := ν) (.or l r) with
+    | some b => some (.bool b)
+    | none =>
+    match xl env row sel l with
       | some (.bool true) => some (.bool true)
       | some (.bool false) =>
         match xl env row sel r with
@@ -423,7 +483,10 @@ def xl (env : Env ν) (row : Row ν) (sel : Bool) : Expr → Option (Value ν)
       | _ => none
   | .not e =>
     if sel then none
-    else match xl env row sel e with
+    else match foldBool (ν := ν) (.not e) with
+    | some b => some (.bool b)
+    | none =>
+    match xl env row sel e with
       | some (.bool b) => some (.bool (!b))
       | _ => none
   | .caseS _ => none
